@@ -1,3 +1,4 @@
+pub mod c07;
 pub mod c09;
 pub mod c10;
 pub mod c11;
@@ -61,6 +62,11 @@ pub fn run_property(id: &str, opts: &Opts) -> i32 {
             ],
             Value::Null,
         ),
+        "C07" => (
+            vec![run_part::<c07::C07>(opts), run_part::<c07::C07Prefix>(opts)],
+            A_PLAN,
+            Value::Null,
+        ),
         "C09" => (
             vec![run_part::<c09::C09>(opts)],
             &[
@@ -91,6 +97,8 @@ pub fn replay(opts: &Opts, doc: &Value) -> i32 {
     try_part!(paths::C03);
     try_part!(paths::C04);
     try_part!(paths::C05);
+    try_part!(c07::C07);
+    try_part!(c07::C07Prefix);
     try_part!(c09::C09);
     try_part!(c10::C10);
     try_part!(c11::C11);
